@@ -75,7 +75,11 @@ CYCLE_SCRIPTS['recfun'] = ('(declare-const a Int)'
                            '(assert (> (f a) 0))(check-sat)')
 CYCLE_SCRIPTS['elim3'] = ('(declare-const x Int)'
                           '(assert (= x (+ (* x 2) 1)))(check-sat)')
-DEPTH3 = ['elim3', 'eq0', 'recfun']     # small scripts: also 3-step chains
+# a defined constant whose body also occurs as a term elsewhere
+CYCLE_SCRIPTS['defconst'] = ('(declare-const a Int)'
+                             '(define-fun z () Int (+ a 1))'
+                             '(assert (> (+ a 1) 0))(check-sat)')
+DEPTH3 = ['elim3', 'eq0', 'recfun', 'defconst']   # small: also 3-step chains
 
 
 class TooSlow(BaseException):
